@@ -14,12 +14,12 @@
 (***************************************************************************)
 EXTENDS Naturals, Sequences, TLC
 CONSTANTS MaxLen, DelOnAllPaths, LiveDecOnInv, FullGetoptReset
-Ops == 0..33
+Ops == 0..35
 IsEnc(o) == o \in {0, 1, 2, 28}
 IsDecOK(o) == o \in {3, 14, 15, 16, 29}
 IsDecFail(o) == o \in {4, 5, 6, 7, 17, 18, 24, 25, 32}
 IsVer(o) == o \in {8, 9, 19, 20, 21, 22, 23, 26, 27, 30, 31, 33}
-IsParse(o) == o \in {10, 11, 12, 13}
+IsParse(o) == o \in {10, 11, 12, 13, 34, 35}
 Threads(o) == CASE o = 0 -> 1 [] o = 1 -> 2 [] o = 2 -> 4 [] o = 3 -> 1 [] o \in {16, 28, 29} -> 4 [] OTHER -> 2
 
 VARIABLES inst, live, cluster, hist, lastOK
